@@ -393,6 +393,8 @@ inductive TextCall where
   | charWidth (ch : Nat)                  -- `GetCharWidth` / `GetCharStart` (query)
   | render (s : List Nat)                 -- `RenderText`
   | drawChar (x y : Int) (ch : Nat) (col bg : Bool) (h v : Int)   -- direct `DrawChar` with its own sizes
+  | bbox (x y w h : Int)                  -- `SetBoundingBox` (canvas side: clip rectangle and drawing origin)
+  | inv (b : Bool)                        -- `InvertPixels`   (canvas side)
 
 def applyCall (st : Canvas × TextSt) : TextCall → Canvas × TextSt
   | .font n p => (st.1, setFont st.2 n p)
@@ -408,6 +410,8 @@ def applyCall (st : Canvas × TextSt) : TextCall → Canvas × TextSt
   | .charWidth _ => st
   | .render s => renderText st s
   | .drawChar x y ch col bg h v => (drawChar st.1 st.2 x y ch col bg h v, st.2)
+  | .bbox x y w h => (setBoundingBox st.1 x y w h, st.2)
+  | .inv b => (invertPixels st.1 b, st.2)
 
 /-- the object after a call history -/
 def runCalls (st : Canvas × TextSt) (calls : List TextCall) : Canvas × TextSt := calls.foldl applyCall st
